@@ -71,6 +71,7 @@ def run(ctx: Ctx) -> None:
         hist = []
         try:
             draining = False
+            tainted = False
             for b in beh:
                 if b["action"] == "Drain":
                     draining = not draining
@@ -84,9 +85,12 @@ def run(ctx: Ctx) -> None:
                 via = b["state"]["last"]["via"]
                 pre_live, pre_view, nxt = w.live(), w.view_session(), len(w.opened) + 1
                 out = w.request(script, via)
-                o = {"out": out, "live": w.live(), "view": w.view_session()}
-                c = {"script": list(script), "via": via, "drain": draining, "pre_live": pre_live, "pre_view": max(pre_view, 0),
-                     "next": nxt}
+                vs_ = w.view_session()
+                o = {"out": out, "live": w.live(), "view": vs_ if vs_ >= 0 else 99}
+                c = {"script": list(script), "via": via, "drain": draining, "pre_live": pre_live, "pre_view": pre_view if pre_view >= 0 else 99,
+                     "next": nxt, "tainted": tainted}
+                if via == "tokenonly" and o["live"] != pre_live:
+                    tainted = True
                 obs.append({"case": c, "obs": o})
                 hist.append(f"{via}:{script}->{out} live={o['live']} view={o['view']}")
                 meta.append({"history": list(hist)})
